@@ -210,7 +210,7 @@ def splits(run, m, F, E, L):
                 nm, bv, ev = cur[0]
                 # R09.2 resume position
                 if not (isinstance(ev, PtrV) and s2.is_eq0(ev.off - mt[1] - seplen) is True):
-                    p2.append('next search starts at match%+r, the separator searched for is %s long' %
+                    p2.append('next search starts at match + (%r), the separator searched for is %s long' %
                               ((ev.off - mt[1]) if isinstance(ev, PtrV) else '?', {'char': '1 unit', 'cstr': 'strlen(splitter)', 'string': 'splitter.size()'}[form]))
                 if s2.is_eq0(mt[2] - seplen) is not True:
                     p2.append('the needle length handed to the search is %r, not the separator length' % (mt[2],))
@@ -323,6 +323,27 @@ def replace(run, m, F, E, L):
                     pass            # byte-for-byte equal pattern and replacement: a no-op
                 else:
                     und.append('a result is produced without searching for the pattern, on a path not decided to be the empty / identical case')
+        if o.kind == 'backedge' and o.info and o.info[0] != f.name and m.has(o.info[0]):
+            # a searching loop of a helper that replace() calls (a counting pass moved out of the member): the occurrences it sees
+            # are the ones the copying scan substitutes only if it, too, resumes behind the whole match
+            g = m.func(o.info[0])
+            wi = max([k2 for k2, e in enumerate(s2.events) if e[0] == 'widen' and e[1] == g.name and e[2] == o.info[1]] or [-1])
+            se = [e for e in s2.events[wi + 1:] if e[0] == 'search' and e[7] == 'needle']
+            mt = s2.flags.get('match')
+            if len(se) == 1 and mt is not None and isinstance(se[0][4], PtrV) and se[0][4].obj == fsto.obj:
+                nxt = next_start(I, s2, g, sto, se[0][2])
+                if nxt is None:
+                    und.append('scan cursor of %s not tracked' % short(g.dem, 60))
+                else:
+                    d9 = nxt[1] - mt[1] - fl
+                    if s2.is_eq0(d9) is not True:
+                        env = s2.find_model([d9], lambda v: v[0] != 0) if robust([d9]) else None
+                        if env is not None:
+                            p2.append('the scan in %s (line %d) resumes at match + (%r), the pattern is from.size() long: it sees overlapping occurrences '
+                                      'that the copying scan does not substitute; witness %s' % (short(g.dem, 50), se[0][1].line, nxt[1] - mt[1], own.fmt_env(env)))
+                        else:
+                            und.append('resume position of the scan in %s (%r) vs match + |from| not decided' % (short(g.dem, 50), nxt[1] - mt[1]))
+            continue
         if o.kind != 'backedge' or not o.info or o.info[0] != f.name:
             continue
         hdr = o.info[1]
@@ -345,7 +366,7 @@ def replace(run, m, F, E, L):
         if s2.is_eq0(nstart - mt[1] - fl) is not True:
             env = s2.find_model([nstart - mt[1] - fl], lambda v: v[0] != 0) if robust([nstart - mt[1] - fl]) else None
             if env is not None or (s2.is_eq0(nstart - mt[1] - fl) is False and robust([nstart - mt[1] - fl])):
-                p2.append('the scan at line %d resumes at match%+r, the pattern is from.size() long%s' %
+                p2.append('the scan at line %d resumes at match + (%r), the pattern is from.size() long%s' %
                           (se[0][1].line, nstart - mt[1], '; witness ' + own.fmt_env(env) if env else ''))
             else:
                 und.append('resume position %r vs match + |from| not decided' % (nstart - mt[1],))
